@@ -261,6 +261,22 @@ def op_literals(task):
         if r["exc"] or t0 is None or t0[0] != kind or t0[3] != lit or r["errors"]:
             viol.append({"what": f"valid literal {lit!r} lexes to {t0} with diagnostics {[e['name'] for e in r['errors']]} "
                                  f"{r['exc'] or ''}", "text": lit + ";"})
+    # the backslash of an escape spelled as the trigraph ??/ : same token, same (normalised) text
+    extra = [('"say \\"hi\\" \\n"', "STRING"), ('"\\\\"', "STRING"), ("'\\''", "CHAR_CONST"), ('"a\\tb\\"c"', "STRING")]
+    for lit, kind in char_and_strings() + extra:
+        if "\\" not in lit:
+            continue
+        # only the backslash that starts an escape is respelled (an escaped character spelled as a
+        # trigraph is known finding K7)
+        import re as _re
+        src = _re.sub(r"\\(.)", lambda m: "??/" + m.group(1), lit, flags=_re.S)
+        cases += 1
+        r = lex(src + ";")
+        t0 = r["tokens"][0] if r["tokens"] else None
+        if r["exc"] or t0 is None or t0[0] != kind or t0[3] != lit or r["errors"] or len(r["tokens"]) != 2:
+            viol.append({"what": f"valid literal {src!r} (escapes written with the trigraph ??/) lexes to "
+                                 f"{(r['tokens'] or [])[:3]} with diagnostics {[e['name'] for e in r['errors']]} {r['exc'] or ''}",
+                         "text": src + ";"})
     for lit, kind in char_and_strings():
         q = "'" if kind == "CHAR_CONST" else '"'
         start = lit.index(q)
